@@ -156,6 +156,49 @@ func c04IsNil(v interface{}) bool {
 	return false
 }
 
+// environment of the operator-overload campaign: functions with interface, concrete and mixed
+// parameters (fields and methods on value and pointer receivers), operands with and without a static type
+type c04Str string
+
+func (s c04Str) String() string { return string(s) }
+
+type c04OpEnv struct {
+	A, B    c04Str
+	N       *Inner
+	I       int
+	S       string
+	B2      bool
+	Any     interface{}
+	Join    func(a, b fmt.Stringer) string
+	JoinI   func(a fmt.Stringer, b int) string
+	JoinAny func(a, b interface{}) string
+	Cat     func(a, b string) string
+	AddI    func(a, b int) int
+}
+
+func (e c04OpEnv) MJoin(a, b fmt.Stringer) string {
+	if a == nil || b == nil {
+		return "m-nil"
+	}
+	return "m:" + a.String() + b.String()
+}
+func (e *c04OpEnv) PJoin(a fmt.Stringer, b string) string { return "p:" + b }
+
+func c04OpBase() *c04OpEnv {
+	return &c04OpEnv{A: "a", B: "b", N: &Inner{X: 1, Y: "y"}, I: 3, S: "s", B2: true, Any: c04Str("any"),
+		Join: func(a, b fmt.Stringer) string {
+			if a == nil || b == nil {
+				return "nil"
+			}
+			return a.String() + "-" + b.String()
+		},
+		JoinI:   func(a fmt.Stringer, b int) string { return fmt.Sprint(a, b) },
+		JoinAny: func(a, b interface{}) string { return fmt.Sprint(a, b) },
+		Cat:     func(a, b string) string { return a + b },
+		AddI:    func(a, b int) int { return a + b },
+	}
+}
+
 // ---------------------------------------------------------------- options
 type c04Opts struct {
 	Env      string   `json:"env"`      // "" | struct | map | ptrmap
@@ -334,6 +377,8 @@ func (o c04Opts) build(sample *Env) []expr.Option {
 	case "ptrmap":
 		m := c04MapEnv(sample)
 		envOpt = append(envOpt, expr.Env(&m))
+	case "opstruct":
+		envOpt = append(envOpt, expr.Env(c04OpBase()))
 	}
 	var rest []expr.Option
 	for _, k := range o.order() {
@@ -357,7 +402,7 @@ func (o c04Opts) build(sample *Env) []expr.Option {
 			}
 		case 3:
 			if o.Operator != "" {
-				rest = append(rest, expr.Operator("+", o.Operator))
+				rest = append(rest, expr.Operator("+", strings.Split(o.Operator, ",")...))
 			}
 		case 4:
 			if o.Const != "" {
@@ -531,6 +576,7 @@ func c04RunEnvs(base, zero, boundary *Env) ([]string, map[string]interface{}) {
 		"map": c04MapEnv(base), "mapzero": c04MapEnv(zero), "mapwrong": c04WrongMapEnv(base),
 		"nil": nil, "int": 42, "foreign": c04Foreign{1}, "emptymap": map[string]interface{}{},
 	}
+	m["opbase"], m["opzero"] = c04OpBase(), &c04OpEnv{}
 	names := []string{"base", "zero", "boundary", "map", "mapzero", "mapwrong", "nil", "int", "foreign", "emptymap"}
 	return names, m
 }
@@ -795,7 +841,11 @@ var c04Alphabet = []string{"1", "0", "7", "1.5", ".5", "1e3", "0x1f", "0b1", "a"
 
 func c04Mutate(rng *rand.Rand, s string) string {
 	b := []byte(s)
-	switch rng.Intn(7) {
+	switch rng.Intn(8) {
+	case 7: // a line break (LF, CR, CRLF) or a quoted literal containing one, anywhere (also inside a literal)
+		p := rng.Intn(len(b) + 1)
+		ins := []string{"\n", "\r", "\r\n", "\"\r\n\"", "'\r\n'", "\"x\r\n", "\r\n\""}[rng.Intn(7)]
+		b = append(b[:p], append([]byte(ins), b[p:]...)...)
 	case 0: // truncate
 		if len(b) > 0 {
 			b = b[:rng.Intn(len(b))]
@@ -830,7 +880,8 @@ func c04Mutate(rng *rand.Rand, s string) string {
 	return string(b)
 }
 
-var c04Fixed = []string{"", " ", "\x00", "\xff\xfe", "\"", "'", "\"\\", "'\\'", "\"\\x", "\"\\x4", "\"\\u12", "\"\\U0010FFFF\"", "\"\\U00110000\"", "\"\\400\"", "\"\\777\"",
+var c04Fixed = []string{"\"'\r\n\"", "'\r\n'", "\"\r\n\"", "\"a\r\n\"", "\"a\r\nb\"", "'a\r\n", "\"\r\n", "'\n'", "'\r'", "\"\\\r\n\"", "S == \"foo\r\n\"", "\"\r\n\r\n\"", "'\r\n' + '\r\n'", "\"\r\r\n\"", "'x\r\n", "\"\r\n'",
+	"", " ", "\x00", "\xff\xfe", "\"", "'", "\"\\", "'\\'", "\"\\x", "\"\\x4", "\"\\u12", "\"\\U0010FFFF\"", "\"\\U00110000\"", "\"\\400\"", "\"\\777\"",
 	"\"a\nb\"", "\"a\rb\"", "'\\'", "\"\\q\"", "1e", "1e+", "1.", "1..", "1...", "..1", ".", "..", "...", "0x", "0xg", "0b2", "0o8", "1_", "_1", "1__2", "1e1e1", "1.2.3", "0x1p3",
 	"9223372036854775807", "9223372036854775808", "-9223372036854775808", "0x7fffffffffffffff", "0x8000000000000000", "1e308", "1e309", "1e-400", strings.Repeat("9", 400), "1e" + strings.Repeat("9", 40),
 	"0." + strings.Repeat("0", 400) + "1", "nil", "nil.a", "nil?.a", "nil[0]", "nil()", "#", ".", "#.a", ".a", "a.#", "a..b", "a...b", "not", "not in", "1 not in", "1 not  in [1]", "1 not\tin [1]",
@@ -1249,6 +1300,55 @@ func runC04() {
 			break
 		}
 	}
+	// ---- operator overloads whose functions take interface / concrete / mixed parameters, as fields and as
+	// methods, in every order of the candidate list, against operands with and without a static type
+	{
+		cands := []string{"Join", "JoinI", "JoinAny", "Cat", "MJoin", "PJoin", "AddI"}
+		var lists []string
+		for _, a := range cands {
+			lists = append(lists, a)
+			for _, b := range cands {
+				if a != b {
+					lists = append(lists, a+","+b)
+				}
+			}
+		}
+		lists = append(lists, "MJoin,Join,Cat,AddI", "AddI,Cat,JoinAny,Join,MJoin", "PJoin,MJoin,JoinI", "Join,Nope", "MJoin,I")
+		operands := []string{"A", "B", "nil", "N?.Zz", "N?.Y", "N", "Any", "I", "S", `"x"`, "1", "1.5", "N?.Next?.Y", "[A]", "A.String()", "(B2 ? A : nil)", "(B2 ? nil : A)"}
+		var opSrcs []string
+		for _, x := range operands {
+			for _, y := range operands {
+				opSrcs = append(opSrcs, x+" + "+y)
+			}
+		}
+		opSrcs = append(opSrcs, "[A + B]", "[A, A + B][1]", "(A + B)[0:1]", "map([1, 2], {A + B})", "Cat(A + B, S)", "{k: A + nil}", "B2 ? A + B : nil + A", "A + B + A", "A + (nil + B)", "(I + 1) + A", "not (A + B == S)", "len(A + B)")
+		rng.Shuffle(len(opSrcs), func(i, j int) { opSrcs[i], opSrcs[j] = opSrcs[j], opSrcs[i] })
+		nOp := 260
+		if thorough {
+			nOp = len(opSrcs)
+		}
+		for i, src := range opSrcs {
+			if i >= nOp {
+				break
+			}
+			for k := 0; k < 3; k++ {
+				ops := c04Opts{Env: "opstruct", Optimize: rng.Intn(3) - 1, Operator: lists[rng.Intn(len(lists))], Allow: rng.Intn(5) == 0,
+					As: []string{"", "", "", "bool"}[rng.Intn(4)]}
+				if k == 0 {
+					ops.Operator = lists[(i*3)%len(lists)]
+				}
+				in := c04Input{Src: src, Opts: ops}
+				r := c04Guard(c04CompileCall(src, func() []expr.Option { return ops.build(base) }))
+				cls := o.judge("compile", in, r, true)
+				rep.hist("operator-interface campaign: compile " + cls)
+				o.distinct[src+"|"+ops.String()] = true
+				if cls == "ok" {
+					o.runAll(in, r.val.(*vm.Program), []string{"opbase", "opzero", "nil"})
+				}
+			}
+		}
+	}
+
 	// Eval with an Option as the environment (misuse) and Run of nil / empty programs
 	for _, f := range []struct {
 		name string
